@@ -343,6 +343,10 @@ func VH_HeaderBad() {
 	case 3: // a sign in the sequence field
 		seqD = string([]byte{"+-"[vChoose("sign", 2)]}) + seqD
 	}
+	if mode == 5 || mode == 6 {
+		vHeaderWindow(mode)
+		return
+	}
 	text := "audit(" + secD + "." + msD + ":" + seqD + "): a=b"
 	if mode == 4 { // every truncation that cuts the header
 		closing := strings.IndexByte(text, ')')
@@ -354,6 +358,53 @@ func VH_HeaderBad() {
 	vAssert(err != nil && m == nil, "C04/malformed-header-accepted")
 }
 
+
+// vHeaderWindow: the delimiters of the header themselves are the unknowns. Whatever happens to
+// them the calls return (no panic), error and message agree, and a text that lacks one of the
+// four delimiters is not a header.
+func vHeaderWindow(mode int) {
+	var text string
+	if mode == 5 {
+		n := vLen("n", vParam("window", 3))
+		w := vStr("w", n)
+		for i := 0; i < n; i++ {
+			vAssume(w[i] < 0x80)
+		}
+		tails := []string{"1.000:5): cwd=(x)", ": a=b", ""}
+		text = "audit" + w + tails[vChoose("tail", len(tails))]
+	} else {
+		b := []byte("audit(12.345:67): a=(b)")
+		p1 := vChoose("p1", 16)
+		p2 := p1 + 1 + vChoose("p2", 16-p1)
+		c1, c2 := vU8("c1"), vU8("c2")
+		vAssume(vAnd(c1 < 0x80, c2 < 0x80))
+		b[p1] = c1
+		if p2 < len(b) {
+			b[p2] = c2
+		}
+		text = string(b)
+	}
+	var hasOpen, hasClose, hasDot, hasColon bool
+	for i := 0; i < len(text); i++ {
+		hasOpen = vOr(hasOpen, text[i] == '(')
+		hasClose = vOr(hasClose, text[i] == ')')
+		hasDot = vOr(hasDot, text[i] == '.')
+		hasColon = vOr(hasColon, text[i] == ':')
+	}
+	all4 := vAnd(vAnd(hasOpen, hasClose), vAnd(hasDot, hasColon))
+	m, err := Parse(AUDIT_SYSCALL, text)
+	vAssert((err != nil) == (m == nil), "C04/error-and-message-disagree")
+	vAssert(vOr(all4, err != nil), "C04/malformed-header-accepted")
+	if m != nil {
+		vReach("C04/window-accepted")
+		_, _ = m.Data()
+		_, _ = m.Tags()
+		_ = m.ToMapStr()
+	}
+	m, err = ParseLogLine("type=SYSCALL msg=" + text)
+	vAssert((err != nil) == (m == nil), "C04/error-and-message-disagree")
+	vAssert(vOr(all4, err != nil), "C04/malformed-header-accepted")
+}
 
 func init() { vEntries["VH_HexInternals"] = VH_HexInternals }
 
